@@ -563,6 +563,12 @@ CORPUS = [
 
 
 def run(ctx):
+    _run_main(ctx)
+    import reuse_common
+    reuse_common.reuse_check(ctx, "C04")
+
+
+def _run_main(ctx):
     rng = ctx.rng
     n = ctx.n(330, 6000)
     cases = list(CORPUS)
